@@ -156,6 +156,11 @@ func (sc *StateCache) Get(key, blockHash string) (Value, bool) {
 	}
 
 	bvs := blockValues.(*lru.Cache)
+	// Always read the link of a block before probing its value: commit publishes
+	// the values of a block first and its link last, so once the link is visible
+	// the values of that block are visible too and cannot be skipped.
+	verifYield("G3")
+	prevHash, linked := sc.hashCache.Get(blockHash)
 	verifYield("G2")
 	vv, ok := bvs.Get(blockHash)
 	if ok {
@@ -174,16 +179,16 @@ func (sc *StateCache) Get(key, blockHash string) (Value, bool) {
 	var count int
 	for {
 		count++
-		// get previous block hash
-		verifYield("G3")
-		prevHash, ok := sc.hashCache.Get(blockHash)
-		if !ok {
+		if !linked {
 			// could not find previous hash
 			logging.Logger.Debug("state cache - see gap", zap.String("block", blockHash))
 			return nil, false
 		}
 
 		blockHash = prevHash.(string)
+		// get previous block hash
+		verifYield("G3")
+		prevHash, linked = sc.hashCache.Get(blockHash)
 		verifYield("G4")
 		vv, ok = bvs.Get(blockHash)
 		if !ok {
